@@ -15,11 +15,11 @@ import (
 // C02 — replicated function data follows the restricted-exchange update rules (DESIGN A.1).
 
 type genUpd struct {
-	data  any
-	fp    *model.FilterType
-	fd    *model.FilterType
-	abs   absUpdate
-	shape string
+	data         any
+	fp           *model.FilterType
+	fd           *model.FilterType
+	abs          absUpdate
+	shape        string
 	partialFirst bool // both filters present: the partial one comes first in the array
 }
 
@@ -125,6 +125,17 @@ func genUpdate(w *World, info FnInfo, cur absList, wc func() *bool) *genUpd {
 		}
 		return sel
 	}
+	// what the filters say is taken from the generated selector and elements objects themselves,
+	// never read back through the implementation's own filter reader
+	var parSel, delSel, delEl any
+	mkPar := func(sel, el any) *model.FilterType {
+		parSel = sel
+		return MakeFilter(info, "partial", sel, el)
+	}
+	mkDel := func(sel, el any) *model.FilterType {
+		delSel, delEl = sel, el
+		return MakeFilter(info, "delete", sel, el)
+	}
 	emptyData := reflect.New(info.DataType).Interface()
 	shape := w.T.Choose(12, "update-shape")
 	switch shape {
@@ -135,8 +146,8 @@ func genUpdate(w *World, info FnInfo, cur absList, wc func() *bool) *genUpd {
 		// a delete filter and a partial filter that each name an item by selector
 		u.shape = "delete-selector+partial-selector"
 		u.data = GenList(info, []reflect.Value{w.GenItem(info.ItemType, nil, 1, 2, nil)})
-		u.fd = MakeFilter(info, "delete", selector(), nil)
-		u.fp = MakeFilter(info, "partial", selector(), nil)
+		u.fd = mkDel(selector(), nil)
+		u.fp = mkPar(selector(), nil)
 	case 11:
 		el := nonKeyElement(w, info)
 		if el == nil || !selOK {
@@ -144,8 +155,8 @@ func genUpdate(w *World, info FnInfo, cur absList, wc func() *bool) *genUpd {
 		}
 		u.shape = "delete-elements+partial-selector"
 		u.data = GenList(info, []reflect.Value{w.GenItem(info.ItemType, nil, 1, 2, nil)})
-		u.fd = MakeFilter(info, "delete", nil, el)
-		u.fp = MakeFilter(info, "partial", selector(), nil)
+		u.fd = mkDel(nil, el)
+		u.fp = mkPar(selector(), nil)
 	case 9:
 		// no filter, one item without identifier: stored as it is when the update persists,
 		// "copied to all items" of the result when it does not
@@ -160,25 +171,25 @@ func genUpdate(w *World, info FnInfo, cur absList, wc func() *bool) *genUpd {
 	case 1, 2:
 		u.shape = "partial-with-identifiers"
 		u.data = GenList(info, genItems(w, info, 1+w.T.Choose(3, "n"), 1, 2, wc))
-		u.fp = MakeFilter(info, "partial", nil, nil)
+		u.fp = mkPar(nil, nil)
 	case 3:
 		u.shape = "partial-without-identifiers"
 		u.data = GenList(info, []reflect.Value{w.GenItem(info.ItemType, nil, 1, 2, nil)})
-		u.fp = MakeFilter(info, "partial", nil, nil)
+		u.fp = mkPar(nil, nil)
 	case 4:
 		if !selOK {
 			return nil
 		}
 		u.shape = "partial-selector"
 		u.data = GenList(info, []reflect.Value{w.GenItem(info.ItemType, nil, 1, 2, nil)})
-		u.fp = MakeFilter(info, "partial", selector(), nil)
+		u.fp = mkPar(selector(), nil)
 	case 5:
 		if !selOK {
 			return nil
 		}
 		u.shape = "delete-selector"
 		u.data = emptyData
-		u.fd = MakeFilter(info, "delete", selector(), nil)
+		u.fd = mkDel(selector(), nil)
 	case 6:
 		el := nonKeyElement(w, info)
 		if el == nil {
@@ -186,7 +197,7 @@ func genUpdate(w *World, info FnInfo, cur absList, wc func() *bool) *genUpd {
 		}
 		u.shape = "delete-elements"
 		u.data = emptyData
-		u.fd = MakeFilter(info, "delete", nil, el)
+		u.fd = mkDel(nil, el)
 	case 7:
 		el := nonKeyElement(w, info)
 		if el == nil || !selOK {
@@ -194,15 +205,15 @@ func genUpdate(w *World, info FnInfo, cur absList, wc func() *bool) *genUpd {
 		}
 		u.shape = "delete-selector-elements"
 		u.data = emptyData
-		u.fd = MakeFilter(info, "delete", selector(), el)
+		u.fd = mkDel(selector(), el)
 	default:
 		if !selOK {
 			return nil
 		}
 		u.shape = "delete-selector+partial-with-identifiers"
 		u.data = GenList(info, genItems(w, info, 1+w.T.Choose(2, "n"), 1, 2, wc))
-		u.fd = MakeFilter(info, "delete", selector(), nil)
-		u.fp = MakeFilter(info, "partial", nil, nil)
+		u.fd = mkDel(selector(), nil)
+		u.fp = mkPar(nil, nil)
 	}
 	if u.fp != nil && u.fd != nil {
 		u.partialFirst = w.T.Bool(1, 2, "partial-filter-listed-first")
@@ -210,16 +221,12 @@ func genUpdate(w *World, info FnInfo, cur absList, wc func() *bool) *genUpd {
 	u.abs = absUpdate{data: absOf(info, u.data), desc: u.shape}
 	if u.fp != nil {
 		u.abs.hasPartial = true
-		if fdta, err := u.fp.Data(); err == nil {
-			u.abs.partialSel = absSelectorOf(info, fdta.Selector)
-		}
+		u.abs.partialSel = absSelectorOf(info, parSel)
 	}
 	if u.fd != nil {
 		u.abs.hasDelete = true
-		if fdta, err := u.fd.Data(); err == nil {
-			u.abs.deleteSel = absSelectorOf(info, fdta.Selector)
-			u.abs.deleteElems = absElementsOf(info, fdta.Elements)
-		}
+		u.abs.deleteSel = absSelectorOf(info, delSel)
+		u.abs.deleteElems = absElementsOf(info, delEl)
 	}
 	return u
 }
